@@ -886,10 +886,12 @@ fn alphabet(mode: Mode, rf: &RefConn, thorough: bool) -> Vec<Ev> {
                 v.push(Ev::Header(n, 0, false));
                 v.push(Ev::Header(n, 2, true));
                 v.push(Ev::Body(n, 1));
+                v.push(Ev::Body(n, 2));
                 v.push(Ev::Body(n, 3));
                 v.push(Ev::ClientOnly(n, 0));
                 v.push(Ev::Unimpl(n, 0));
             }
+            v.push(Ev::Header(1, 3, false));
             v.push(Ev::Deliver(1, 2)); // unknown tag
             v.push(Ev::GetOk(1));
             v.push(Ev::Return(1));
